@@ -4,11 +4,12 @@
 (* context-dependent part of token_iter (heading lines, apostrophe runs,      *)
 (* line-start-only tokens).                                                   *)
 (*                                                                            *)
-(*   state  st = [stack, bol, wsp, line, pre, stuck]                           *)
+(*   state  st = [stack, bol, wsp, line, pre, stuck, dev]                      *)
 (*     stack  open frames, bottom = ROOT (ctx.parser_stack)                   *)
 (*     bol    ctx.beginning_of_line      wsp  ctx.wsp_beginning_of_line       *)
 (*     line   ctx.linenum                pre  ctx.pre_parse                   *)
 (*     stuck  set when no handler branch applies (an exception in the code)   *)
+(*     dev    the deviation switches of this run (constant during a parse)    *)
 (*   frame    [kind, sarg, largs, attrs, children, loc, th]                   *)
 (*   child    [s |-> <<atoms>>]  (a string; atoms are merged on append)  or a *)
 (*            popped frame [kind, sarg, largs, attrs, children (, def)]       *)
@@ -20,13 +21,15 @@
 (* consequently URL/TEMPLATE frames are never open at token level and         *)
 (* begline_enabled is always true).                                           *)
 (*                                                                            *)
-(* Dev: named deviations; Dev = {} is the behaviour the properties demand.    *)
+(* Deviations (st.dev); {} is the behaviour the properties demand:            *)
 (*   "HlineClosesLevel1"  hline_fn stops only at ROOT/LEVEL2 (as-is), so a    *)
 (*                        rule also closes an open LEVEL1 without LEVEL2      *)
 (*   "PreParseLeftSet"    parse_encoded leaves pre_parse set when <pre> was   *)
 (*                        never closed                                        *)
-(*   "PreInHeading"       <pre> inside a heading line swallows the heading    *)
-(*                        end token: the LEVEL node keeps no title argument   *)
+(*   "HeadingTitleLost"   as-is subtitle_end_fn (gives up in <pre> mode and   *)
+(*                        when the line number moved inside the title) and    *)
+(*                        as-is _parser_pop (a title node closed before its   *)
+(*                        end token keeps no title argument)                  *)
 EXTENDS Naturals, Sequences, FiniteSets, TLC
 
 (* ---------------------------------------------------------------- kinds -- *)
@@ -106,9 +109,12 @@ Pop(st) ==
   LET n == Len(st.stack)
       f == st.stack[n]
       rest == SubSeq(st.stack, 1, n - 1)
+      \* (repaired) a title node closed before its end token takes what it collected as its title
+      g == IF IsLevel(f.kind) /\ f.kind # "ROOT" /\ f.largs = <<>> /\ "HeadingTitleLost" \notin st.dev
+           THEN [f EXCEPT !.largs = <<f.children>>, !.children = <<>>] ELSE f
   IN IF n < 2 THEN Stuck(st)
      ELSE IF f.kind \in {"BOLD", "ITALIC"} /\ f.children = <<>> THEN [st EXCEPT !.stack = rest]
-     ELSE [st EXCEPT !.stack = [rest EXCEPT ![n - 1] = AppendNode(rest[n - 1], NodeOf(f))]]
+     ELSE [st EXCEPT !.stack = [rest EXCEPT ![n - 1] = AppendNode(rest[n - 1], NodeOf(g))]]
 
 RECURSIVE PopN(_, _)
 PopN(st, n) == IF n <= 0 \/ st.stuck THEN st ELSE PopN(Pop(st), n - 1)
@@ -195,8 +201,8 @@ TextFn(st0, atoms) ==
 (* --------------------------------------------------------------- hline_fn *)
 HlineStops(Dev) == {"ROOT", "LEVEL2", "HTML"} \cup TableParts
                    \cup (IF "HlineClosesLevel1" \in Dev THEN {} ELSE {"LEVEL1"})
-HlineFn(st0, Dev) ==
-  LET st1 == PopUntil(CloseBeglineLists(st0), HlineStops(Dev)) IN
+HlineFn(st0) ==
+  LET st1 == PopUntil(CloseBeglineLists(st0), HlineStops(st0.dev)) IN
   IF st1.stuck THEN st1 ELSE SetTop(st1, AppendNode(Top(st1), Leaf("HLINE", <<>>, <<>>)))
 
 (* ------------------------------------------- subtitle_start_fn / _end_fn -- *)
@@ -221,14 +227,27 @@ FindStart(st, kind, i) ==      \* number of frames above the start node; 99 = no
   ELSE IF st.stack[i].loc # st.line THEN 99
   ELSE IF st.stack[i].kind = kind THEN Len(st.stack) - i
   ELSE FindStart(st, kind, i - 1)
-SubtitleEnd(st, l, Dev) ==
+MoveTitle(st) ==
+  LET f == Top(st) IN SetTop(st, [f EXCEPT !.largs = Append(f.largs, f.children), !.children = <<>>])
+\* as-is: gives up in <pre> mode; looks only at frames opened on the current line
+SubtitleEndAsIs(st, l) ==
   IF st.pre THEN TextFn(st, EqAtoms(l))
   ELSE LET cnt == FindStart(st, KindOfLevel(l), Len(st.stack)) IN
        IF cnt = 99 THEN TextFn(st, EqAtoms(l))
-       ELSE LET st1 == PopN(st, cnt)
-                f == Top(st1) IN
-            IF st1.stuck \/ f.kind # KindOfLevel(l) THEN Stuck(st1)
-            ELSE SetTop(st1, [f EXCEPT !.largs = Append(f.largs, f.children), !.children = <<>>])
+       ELSE LET st1 == PopN(st, cnt) IN
+            IF st1.stuck \/ Top(st1).kind # KindOfLevel(l) THEN Stuck(st1) ELSE MoveTitle(st1)
+\* repaired: the start node is the innermost title frame, if it is of this
+\* level and still lacks its title; a <pre> opened in the title ends with it
+RECURSIVE InnermostLevel(_, _)
+InnermostLevel(st, i) == IF IsLevel(st.stack[i].kind) THEN i ELSE InnermostLevel(st, i - 1)
+SubtitleEndIdeal(st, l) ==
+  LET i == InnermostLevel(st, Len(st.stack)) IN
+  IF st.stack[i].kind = KindOfLevel(l) /\ st.stack[i].largs = <<>>
+  THEN LET st1 == PopN([st EXCEPT !.pre = FALSE], Len(st.stack) - i) IN
+       IF st1.stuck THEN st1 ELSE MoveTitle(st1)
+  ELSE TextFn(st, EqAtoms(l))
+SubtitleEnd(st, l) ==
+  IF "HeadingTitleLost" \in st.dev THEN SubtitleEndAsIs(st, l) ELSE SubtitleEndIdeal(st, l)
 
 (* ---------------------------------------------------------------- list_fn *)
 \* len(sarg) < len(tok) and tok[i] in (":", sarg[i]) for all i
@@ -464,9 +483,11 @@ MagicLeaf(k) ==
     [] k = "L" -> Leaf("LINK", <<>>, << <<[s |-> <<"L">>]>> >>)
     [] k = "E" -> Leaf("URL", <<>>, << <<[s |-> <<"url">>]>>, <<[s |-> <<"w">>]>> >>)
     [] k = "F" -> Leaf("FILLER", <<>>, <<>>)
-MagicFn(st0, k) ==
+TemplateNL == Leaf("TEMPLATE", <<>>, << <<[s |-> <<"t", "NL">>]>>, <<[s |-> <<"a">>]>> >>)
+MagicFn(st0, k, nl) ==
   LET st1 == CloseBeglineLists(st0) IN
   IF st1.stuck THEN st1
+  ELSE IF k = "T" /\ nl > 0 THEN SetTop(st1, AppendNode(Top(st1), TemplateNL))
   ELSE IF k = "N" THEN TextFn([st1 EXCEPT !.bol = FALSE], <<"nowiki">>)   \* magic_fn cleared beginning_of_line
   ELSE SetTop(st1, AppendNode(Top(st1), MagicLeaf(k)))
 MagicWordFn(st0) ==
@@ -499,18 +520,19 @@ TokAtoms(tok) ==
     [] tok.k = "EX"  -> <<"!">>
     [] tok.k = "DEX" -> <<"!", "!">>
     [] tok.k = "TAG" -> <<TagAtom(tok.name, tok.close)>>
-    [] tok.k = "MAGIC" -> <<"magic" \o tok.m>>
+    [] tok.k = "MAGIC" -> (IF tok.m = "N" THEN <<"nowiki">> ELSE <<"magic" \o tok.m>>)
     [] tok.k = "MW"  -> <<"__NOTOC__">>
     [] tok.k = "URL" -> <<"url">>
 
-Handle(st, tok, Dev) ==
+NewLines(tok) == IF tok.k = "NL" THEN 1 ELSE IF tok.k = "MAGIC" /\ "nl" \in DOMAIN tok THEN tok.nl ELSE 0
+Handle(st, tok) ==
   IF Top(st).kind = "PRE" /\ ~(tok.k = "TAG" /\ tok.close /\ tok.name = "pre")
   THEN TextFn(st, TokAtoms(tok))        \* process_text: inside <pre> everything is text
   ELSE CASE tok.k \in {"TXT", "SP", "NL"} -> TextFn(st, TokAtoms(tok))
          [] tok.k = "HS"  -> SubtitleStart(st, tok.l)
-         [] tok.k = "HE"  -> SubtitleEnd(st, tok.l, Dev)
+         [] tok.k = "HE"  -> SubtitleEnd(st, tok.l)
          [] tok.k = "LP"  -> ListFn(st, tok.p)
-         [] tok.k = "HR"  -> (IF st.bol THEN HlineFn(st, Dev) ELSE TextFn(st, <<"----">>))
+         [] tok.k = "HR"  -> (IF st.bol THEN HlineFn(st) ELSE TextFn(st, <<"----">>))
          [] tok.k = "IT"  -> FormatFn(st, "ITALIC", <<"''">>)
          [] tok.k = "BO"  -> FormatFn(st, "BOLD", <<"'''">>)
          [] tok.k = "TS"  -> TableStartFn(st)
@@ -523,32 +545,32 @@ Handle(st, tok, Dev) ==
          [] tok.k = "DEX" -> TableHdrCellFn(st, <<"!", "!">>)
          [] tok.k = "TAG" -> (IF tok.close THEN TagEndFn(st, tok.name)
                               ELSE TagStartFn(st, tok.name, tok.attrs, tok.self))
-         [] tok.k = "MAGIC" -> MagicFn(st, tok.m)
+         [] tok.k = "MAGIC" -> MagicFn(st, tok.m, NewLines(tok))
          [] tok.k = "MW"  -> MagicWordFn(st)
          [] tok.k = "URL" -> UrlFn(st)
 
 \* process_text: handler, then linenum / wsp_beginning_of_line / beginning_of_line
-Step(st, tok, Dev) ==
+Step(st, tok) ==
   IF st.stuck THEN st
-  ELSE LET r == Handle(st, tok, Dev) IN
-       [r EXCEPT !.line = IF tok.k = "NL" THEN r.line + 1 ELSE r.line,
+  ELSE LET r == Handle(st, tok) IN
+       [r EXCEPT !.line = r.line + NewLines(tok),
                  !.wsp = st.bol /\ tok.k \in {"SP", "NL"},
                  !.bol = (tok.k = "NL")]
-RECURSIVE Feed(_, _, _, _)
-Feed(st, toks, i, Dev) == IF i > Len(toks) THEN st ELSE Feed(Step(st, toks[i], Dev), toks, i + 1, Dev)
+RECURSIVE Feed(_, _, _)
+Feed(st, toks, i) == IF i > Len(toks) THEN st ELSE Feed(Step(st, toks[i]), toks, i + 1)
 
-InitState == [stack |-> << Frame("ROOT", <<>>, 0) >>, bol |-> TRUE, wsp |-> FALSE, line |-> 1,
-              pre |-> FALSE, stuck |-> FALSE]
+InitState(Dev) == [stack |-> << Frame("ROOT", <<>>, 0) >>, bol |-> TRUE, wsp |-> FALSE, line |-> 1,
+                   pre |-> FALSE, stuck |-> FALSE, dev |-> Dev]
 
 (* parse_encoded after process_text: pop everything, return the root; the    *)
 (* `finally` empties the stack                                               *)
 RECURSIVE PopAll(_)
 PopAll(st) == IF Len(st.stack) = 1 \/ st.stuck THEN st ELSE PopAll(Pop(st))
-Finish(st, Dev) ==
+Finish(st) ==
   LET st1 == PopAll(st) IN
   [root |-> NodeOf(st1.stack[1]),
    stack |-> 0,                                         \* ctx.parser_stack = [] in the finally
-   pre |-> IF "PreParseLeftSet" \in Dev THEN st1.pre ELSE FALSE,
+   pre |-> IF "PreParseLeftSet" \in st.dev THEN st1.pre ELSE FALSE,
    stuck |-> st1.stuck]
 
 (* -------------------------------------------------- tokenizer (token_iter) *)
@@ -590,6 +612,7 @@ FixedTok(c) ==
     [] c = "UNK"   -> [k |-> "TAG", name |-> "foo", close |-> FALSE, self |-> FALSE, attrs |-> <<>>]
     [] c = "EUNK"  -> [k |-> "TAG", name |-> "foo", close |-> TRUE, self |-> FALSE, attrs |-> <<>>]
     [] c = "MT"    -> [k |-> "MAGIC", m |-> "T"]
+    [] c = "MTN"   -> [k |-> "MAGIC", m |-> "T", nl |-> 1]      \* a template call with a newline inside
     [] c = "MA"    -> [k |-> "MAGIC", m |-> "A"]
     [] c = "ML"    -> [k |-> "MAGIC", m |-> "L"]
     [] c = "ME"    -> [k |-> "MAGIC", m |-> "E"]
@@ -705,5 +728,5 @@ Tokenize(doc, i, cur) ==
   ELSE IF doc[i] = "NL" THEN LineTokens(cur) \o <<[k |-> "NL"]>> \o Tokenize(doc, i + 1, <<>>)
   ELSE Tokenize(doc, i + 1, Append(cur, doc[i]))
 
-Parse(doc, Dev) == Finish(Feed(InitState, Tokenize(doc, 1, <<>>), 1, Dev), Dev)
+Parse(doc, Dev) == Finish(Feed(InitState(Dev), Tokenize(doc, 1, <<>>), 1))
 =============================================================================
